@@ -396,6 +396,12 @@ fn execute_full(
                 crate::isolate::Outcome::Hung(secs) => {
                     return failed_result(gen, profile, format!("no-termination: the run did not finish within {} s of wall clock and was killed at {}:0", secs, gen.program()));
                 }
+                crate::isolate::Outcome::DiedUnderFault(how) => {
+                    let mut r = failed_result(gen, profile, format!("the generator process died without a result ({}) after an injected fault at {}:0", how, gen.program()));
+                    // a loud failure under a fault: not judged (DESIGN §4.4)
+                    r.stalled = true;
+                    return r;
+                }
                 crate::isolate::Outcome::Died(how) => {
                     return failed_result(gen, profile, format!("the generator process died without a result ({}) at {}:0", how, gen.program()));
                 }
@@ -484,6 +490,10 @@ fn execute_once(
     world::PANIC_INFO.with(|p| *p.borrow_mut() = None);
     let mut fresh = World::new(image.clone(), mode, collect, verbose);
     fresh.hard = hard;
+    fresh.gen_index = match gen {
+        Gen::Layout => 0,
+        Gen::Likely => 1,
+    };
     if let Some(d) = &env.disk {
         fresh.load_disk(d);
     }
@@ -502,6 +512,7 @@ fn execute_once(
     }
     world::install(fresh);
     enter_run(gen);
+    CURRENT.with(|c| c.set(Some((gen, profile, under_shuttle))));
     let r = if under_shuttle {
         catch_unwind(AssertUnwindSafe(|| {
             let runner = shuttle::Runner::new(SimSched { started: false }, shuttle_config());
@@ -511,7 +522,37 @@ fn execute_once(
         catch_unwind(AssertUnwindSafe(|| run_generator(gen)))
     };
     leave_run();
-    let mut w = world::uninstall();
+    let w = world::uninstall();
+    assemble(gen, profile, under_shuttle, w, r)
+}
+
+thread_local! {
+    /// the execution in progress on this OS thread: what `assemble` needs besides the world
+    static CURRENT: std::cell::Cell<Option<(Gen, Option<Profile>, bool)>> = const { std::cell::Cell::new(None) };
+}
+
+/// (round 11) `process::exit` in a run that has a process of its own (forked child): the process
+/// image is gone *at this instant* — the result is assembled from the world as it is, sent to the
+/// parent, and the child ends without unwinding anything. (Unwinding out of `exit` used to stand
+/// for it; a program that calls `exit` from a panic hook, or whose thread-local destructors use
+/// synchronisation primitives while the engine tears the execution down, aborted the child on the
+/// way — control `n3_r4` under an injected read or write error.)
+pub fn exit_child_now(code: i32) {
+    use std::sync::atomic::Ordering;
+    if !crate::isolate::IN_CHILD.load(Ordering::Relaxed) || crate::isolate::CHILD_FD.load(Ordering::Relaxed) < 0 {
+        return;
+    }
+    let Some((gen, profile, under_shuttle)) = CURRENT.with(|c| c.get()) else { return };
+    if !world::installed() {
+        return;
+    }
+    let w = world::uninstall();
+    let r: std::thread::Result<()> = Err(Box::new(crate::seams::simenv::ExitRequest(code)));
+    let res = assemble(gen, profile, under_shuttle, w, r);
+    crate::isolate::child_send_and_die(&res);
+}
+
+fn assemble(gen: Gen, profile: Option<Profile>, under_shuttle: bool, mut w: World, r: std::thread::Result<()>) -> RunResult {
     let mut exit_code = None;
     let mut panic = match r {
         Ok(()) => None,
@@ -594,12 +635,26 @@ fn execute_once(
         panic,
         exit_code,
         hard_fired: w.hard_fired,
-        stalled: w.stalled || w.missing_program || w.fd_exhausted || (w.gating_fault && w.hard_fired),
+        stalled: w.stalled || w.missing_program || w.fd_exhausted || (w.gating_fault && w.hard_fired) || w.write_faulted,
         under_shuttle,
         sched_digest: w.sched_digest.0,
         diverged: w.diverged,
         leftover_decisions: leftover,
         verbose_log: w.verbose_log,
+    }
+}
+
+/// Settles, once per process and before any seeded run, what the seeded runs' decisions are
+/// relative to: the length of each program's output under the default schedule (where the
+/// "disk full" marks go). Every command that executes seeded runs calls this first, so that a
+/// seeded run is the same execution in the checking process, in a replay and in a trace.
+pub fn prime_output_hints(image: &Arc<FsImage>) {
+    for (i, g) in [Gen::Layout, Gen::Likely].into_iter().enumerate() {
+        let r = execute(g, image, replay_mode(&[]), false, false);
+        let n = r.out.len() as u64;
+        if n > 0 {
+            world::OUT_LEN_HINT[i].store(n, std::sync::atomic::Ordering::Relaxed);
+        }
     }
 }
 
@@ -610,6 +665,12 @@ pub fn random_mode(seed: u64, gen: Gen, run: u64) -> Mode {
     // everything added after the first release draws from its own stream (see Profile::draw_aux)
     let mut aux = Rng::new(run_seed(seed, gen.stream() + 32, run));
     profile.draw_aux(&mut aux);
+    // (round 11) the full-disk fault draws from a third stream, so that everything else a given
+    // (seed, run) decides stays what it was; never together with the read error
+    let mut aux3 = Rng::new(run_seed(seed, gen.stream() + 64, run));
+    if !profile.read_fault && aux3.chance(1, 8) {
+        profile.write_fault = aux3.next_u64() | 1;
+    }
     Mode::Random { rng, aux, profile }
 }
 
